@@ -32,7 +32,7 @@ res["demo_cmd"] = democmd
 def run_demo(n):
     fails = 0
     rcb, outb = sh(democmd.split("&&")[0] if democmd else "false")
-    exe = re.search(r"-o\s+(\S+)", democmd).group(1) if democmd else None
+    exe = democmd.split("&&", 1)[1].strip() if (democmd and "&&" in democmd) else (re.search(r"-o\s+(\S+)", democmd).group(1) if democmd else None)
     if rcb != 0:
         return None, outb[-500:]
     last = ""
